@@ -411,7 +411,12 @@ class Session:
             # ---- load
             ctx.count(f"load:{m['expect']}:" + ("ok" if impl["ok"] else impl["err"]))
             impl_kind = "loaded" if impl["ok"] else "failed"
-            if impl_kind != mod["kind"] or (not impl["ok"] and impl["err"] != mod.get("err")):
+            if not impl["ok"] and impl["err"] != mod.get("err"):
+                # WHICH exception reports the mismatch is not part of the property ("fails loudly"): e.g. a
+                # reader that validates each leaf as it is read reports a shape error where one that reads
+                # all leaves first reports a premature end of file
+                ctx.count("load:failed-with-a-different-exception-than-the-model's")
+            if impl_kind != mod["kind"]:
                 ctx.disagree("load-outcome", case,
                              impl=impl_kind if impl["ok"] else impl["err"] + " (" + impl["exc"] + ")",
                              model=mod["kind"] if mod["kind"] == "loaded" else mod["err"])
